@@ -129,7 +129,7 @@ impl SignedPacket {
 
     /// Parse a signed packet without verifying the signature.
     ///
-    /// Still validates minimum length and DNS parsing.
+    /// Still validates minimum length, the public key bytes and DNS parsing.
     pub fn from_bytes_unchecked(bytes: &[u8]) -> Result<SignedPacket, SignedPacketVerifyError> {
         if bytes.len() < HEADER_SIZE {
             return Err(e!(SignedPacketVerifyError::TooShort { len: bytes.len() }));
@@ -137,6 +137,9 @@ impl SignedPacket {
         if bytes.len() > MAX_SIGNED_PACKET_SIZE {
             return Err(e!(SignedPacketVerifyError::TooLarge { len: bytes.len() }));
         }
+        // The accessors rely on the embedded key being a valid public key.
+        PublicKey::try_from(&bytes[..32])
+            .map_err(|e| e!(SignedPacketVerifyError::InvalidKey, e))?;
         Packet::parse(&bytes[104..])
             .map_err(|e| e!(SignedPacketVerifyError::DnsError, anyerr!(e)))?;
         Ok(SignedPacket {
